@@ -219,8 +219,9 @@ Lemma is_generated_reserved m n :
   is_generated_file m n = true -> in_b n m = false -> reserved_name_b n = true.
 Proof.
   unfold is_generated_file, reserved_name_b. intros H Hm. rewrite Hm, orb_false_r in H.
-  rewrite !orb_true_iff in H. rewrite !orb_true_iff. destruct H as [[H|H]|H]; auto.
-  left. left. apply in_b_In in H. pose proof patterns_reserved as P. rewrite forallb_forall in P. apply P, H.
+  apply orb_true_iff in H. destruct H as [H|H].
+  - apply in_b_In in H. pose proof patterns_reserved as P. rewrite forallb_forall in P. rewrite (P _ H). reflexivity.
+  - apply andb_prop in H. destruct H as [H _]. rewrite <- orb_assoc, H. apply orb_true_r.
 Qed.
 
 Lemma own_names_reserved :
@@ -333,22 +334,25 @@ Qed.
 Lemma run_init_Eff i c a s :
   Eff (fun q => A_own (c_out c) q \/ i_target i = q) (B_out (c_out c)) s (fst (run_init i c a s)).
 Proof.
-  unfold run_init. destruct (init_save i s) as [s1|] eqn:I; [|apply Eff_refl].
+  unfold run_init. destruct (negb (c_lib_ok c) || negb (exists_b s (c_proj c))); [apply Eff_refl|].
+  destruct (init_save i s) as [s1|] eqn:I; [|apply Eff_refl].
   eapply Eff_trans.
   - eapply Eff_weaken; [| |apply (init_save_Eff _ _ _ I)]; [intros q H; right; exact H|intros q []].
   - eapply Eff_weaken; [| |apply run_generate_Eff]; [intros q H; left; exact H|auto].
 Qed.
 
 (* ------------------------------------------------------------------ build script *)
-(* A_cln: what cleanup may remove, by name *)
+(* A_cln: what cleanup may remove, by name: one of the twelve exact names, or a .ts name with an affix *)
+Definition affix (n : str) : bool := starts (L "generated_") n || contains (L "_generated") n.
 Definition A_cln (out : path) : path -> Prop :=
-  fun q => exists n, q = out ++ [n] /\ (in_b n generated_patterns = true \/ gen_affix n = true).
+  fun q => exists n, q = out ++ [n] /\ (in_b n generated_patterns = true \/ (affix n = true /\ ends_ts n = true)).
 
 Lemma is_generated_cases m n :
-  is_generated_file m n = true -> in_b n m = false -> in_b n generated_patterns = true \/ gen_affix n = true.
+  is_generated_file m n = true -> in_b n m = false ->
+  in_b n generated_patterns = true \/ (affix n = true /\ ends_ts n = true).
 Proof.
-  unfold is_generated_file, gen_affix. intros H Hm. rewrite Hm, orb_false_r in H.
-  rewrite !orb_true_iff in H. rewrite orb_true_iff. tauto.
+  unfold is_generated_file, affix. intros H Hm. rewrite Hm, orb_false_r in H.
+  apply orb_true_iff in H. destruct H as [H|H]; [left; exact H|right; apply andb_prop, H].
 Qed.
 
 Lemma cleanup_spec out cur s :
@@ -380,37 +384,61 @@ Proof.
   intros HC. apply G, HC.
 Qed.
 
-Definition A_build (out : path) : path -> Prop :=
-  fun q => A_own out q \/ out ++ [n_probe] = q \/ A_cln out q.
+Definition A_build (out : path) : path -> Prop := fun q => A_own out q \/ A_cln out q.
 
 Lemma cleanup_Eff out cur s : Eff (A_build out) (B_out out) s (cleanup_old_files out cur s).
 Proof.
   eapply Eff_weaken; [| |apply (Eff_of_removals (A_cln out)), cleanup_spec]; [|intros q []].
-  intros q H. right. right. exact H.
+  intros q H. right. exact H.
 Qed.
 
-Lemma prepare_Eff out s s1 : prepare_output_directory out s = Some s1 -> Eff (A_build out) (B_out out) s s1.
+(* the probe: a fresh entry is created and removed again, an existing one is left alone;
+   apart from creating the output directory the preparation changes nothing at all *)
+Lemma probe_roundtrip s p c s2 :
+  lookup s p = None -> write s p c = Some s2 ->
+  exists s3, remove_file s2 p = Some s3 /\ forall q, lookup s3 q = lookup s q.
+Proof.
+  intros N Wr. unfold write in Wr. destruct p as [|x p]; [discriminate|]. set (pp := x :: p) in *.
+  destruct (is_dir s (parent pp) && negb (is_dir s pp)); [|discriminate]. injection Wr as <-.
+  exists (del (set s pp (File c)) pp). split.
+  - unfold remove_file, is_file. rewrite lookup_set, path_eqb_refl. reflexivity.
+  - intros q. rewrite lookup_del. destruct (path_eqb pp q) eqn:E.
+    + apply path_eqb_eq in E. subst q. symmetry. exact N.
+    + rewrite lookup_set, E. reflexivity.
+Qed.
+
+Lemma Eff_of_lookup_eq A B s s' : (forall q, lookup s' q = lookup s q) -> Eff A B s s'.
+Proof.
+  intros H. repeat split; red; intros q Hq.
+  - unfold file_at. rewrite H. reflexivity.
+  - rewrite H. exact Hq.
+  - left. rewrite <- H. exact Hq.
+Qed.
+
+Lemma prepare_Eff out s s1 : prepare_output_directory out s = Some s1 -> Eff none (B_out out) s s1.
 Proof.
   unfold prepare_output_directory. intros H.
   assert (exists s0, (if exists_b s out then Some s else mkdir_all s out) = Some s0 /\
-                     Eff (A_build out) (B_out out) s s0) as (s0 & E0 & F0).
+                     Eff none (B_out out) s s0) as (s0 & E0 & F0).
   { destruct (exists_b s out).
     - exists s. split; [reflexivity|apply Eff_refl].
     - destruct (mkdir_all s out) as [s0|] eqn:M; [|discriminate]. exists s0. split; [reflexivity|].
-      eapply Eff_weaken; [| |apply (mkdir_ok out _ _ M)]; [intros q Hq; left; exact Hq|auto]. }
-  rewrite E0 in H. destruct (write s0 (out ++ [n_probe]) (L "test")) as [s2|] eqn:Wr; [|discriminate].
-  injection H as <-. eapply Eff_trans; [exact F0|].
-  assert (Eff (A_build out) (B_out out) s0 s2) as F2.
-  { eapply Eff_weaken; [| |apply (write_Eff _ _ _ _ Wr)]; [intros q Hq; right; left; exact Hq|intros q []]. }
-  destruct (remove_file s2 (out ++ [n_probe])) as [s3|] eqn:R; [|exact F2].
-  eapply Eff_trans; [exact F2|].
-  eapply Eff_weaken; [| |apply (remove_file_Eff _ _ _ R)]; [intros q Hq; right; left; exact Hq|intros q []].
+      apply (mkdir_all_Eff _ _ _ M). }
+  rewrite E0 in H. destruct (exists_b s0 (out ++ [n_probe])) eqn:X.
+  - injection H as <-. exact F0.
+  - destruct (write s0 (out ++ [n_probe]) []) as [s2|] eqn:Wr; [|discriminate]. injection H as <-.
+    assert (lookup s0 (out ++ [n_probe]) = None) as N.
+    { unfold exists_b in X. destruct (out ++ [n_probe]) as [|x p]; [discriminate|].
+      destruct (lookup s0 (x :: p)); [discriminate|reflexivity]. }
+    destruct (probe_roundtrip _ _ _ _ N Wr) as (s3 & R & Hs3). rewrite R.
+    eapply Eff_trans; [exact F0|apply Eff_of_lookup_eq, Hs3].
 Qed.
 
 Lemma finalize_Eff out files s : Eff (A_build out) (B_out out) s (fst (finalize_generation out files s)).
 Proof.
   unfold finalize_generation. destruct (prepare_output_directory out s) as [s1|] eqn:P; cbn [fst]; [|apply Eff_refl].
-  eapply Eff_trans; [apply (prepare_Eff _ _ _ P)|apply cleanup_Eff].
+  eapply Eff_trans; [|apply cleanup_Eff].
+  eapply Eff_weaken; [| |apply (prepare_Eff _ _ _ P)]; [intros q []|auto].
 Qed.
 
 Lemma Eff_out_build out s s' : Eff (A_own out) (B_out out) s s' -> Eff (A_build out) (B_out out) s s'.
@@ -433,68 +461,22 @@ Proof.
   eapply Eff_trans; [apply Eff_out_build, G|exact F].
 Qed.
 
-(* a build run creates regular files only under the seven own names: anywhere else,
-   where no regular file was, none is afterwards (the probe is written and removed) *)
-Lemma removal_keeps_none s s' q :
-  (lookup s' q = lookup s q \/ lookup s' q = None) -> file_at s q = None -> file_at s' q = None.
-Proof. unfold file_at. intros [E|E] H; rewrite E; [exact H|reflexivity]. Qed.
-
-Lemma prepare_none out s s1 q :
-  prepare_output_directory out s = Some s1 -> file_at s q = None -> file_at s1 q = None.
-Proof.
-  unfold prepare_output_directory. intros H N.
-  assert (exists s0, (if exists_b s out then Some s else mkdir_all s out) = Some s0 /\ file_at s0 q = None) as (s0 & E0 & N0).
-  { destruct (exists_b s out); [exists s; auto|].
-    destruct (mkdir_all s out) as [s0|] eqn:M; [|discriminate]. exists s0. split; [reflexivity|].
-    destruct (mkdir_all_Eff _ _ _ M) as (F & _). rewrite F; [exact N|intros []]. }
-  rewrite E0 in H.
-  destruct (write s0 (out ++ [n_probe]) (L "test")) as [s2|] eqn:Wr; [|discriminate].
-  injection H as <-.
-  assert (lookup s2 (out ++ [n_probe]) = Some (File (L "test"))) as L2.
-  { unfold write in Wr. destruct (out ++ [n_probe]) as [|x p] eqn:E; [discriminate|].
-    destruct (is_dir s0 (parent (x :: p)) && negb (is_dir s0 (x :: p))); [|discriminate].
-    injection Wr as <-. rewrite lookup_set, path_eqb_refl. reflexivity. }
-  unfold remove_file, is_file. rewrite L2.
-  destruct (path_eqb (out ++ [n_probe]) q) eqn:Q.
-  - apply path_eqb_eq in Q. subst q. unfold file_at. rewrite lookup_del, path_eqb_refl. reflexivity.
-  - apply path_eqb_neq in Q. apply (removal_keeps_none s2).
-    + left. rewrite lookup_del. destruct (path_eqb (out ++ [n_probe]) q) eqn:Q'; [|reflexivity].
-      apply path_eqb_eq in Q'. contradiction.
-    + destruct (write_Eff _ _ _ _ Wr) as (F & _). rewrite F; [exact N0|exact Q].
-Qed.
-
-Lemma finalize_none out files s q :
-  file_at s q = None -> file_at (fst (finalize_generation out files s)) q = None.
-Proof.
-  intros H. unfold finalize_generation. destruct (prepare_output_directory out s) as [s1|] eqn:P; cbn [fst]; [|exact H].
-  apply (removal_keeps_none s1); [|apply (prepare_none _ _ _ _ P H)].
-  destruct (cleanup_spec out files s1 q) as [E|(E & _)]; auto.
-Qed.
-
-Lemma run_build_none d c a s q :
-  ~ A_own (c_out c) q -> file_at s q = None -> file_at (fst (run_build d c a s)) q = None.
-Proof.
-  intros NA H. unfold run_build. destruct (negb d); [exact H|].
-  destruct (negb (exists_b s (c_proj c)) || negb (a_ok a)); [exact H|].
-  destruct (negb (a_cmds a)); cbn [negb].
-  { pose proof (finalize_none (c_out c) [] s q H) as F. destruct (finalize_generation (c_out c) [] s). exact F. }
-  destruct (negb (c_force c) && cache_hit c a s); cbn [negb].
-  { pose proof (finalize_none (c_out c) (child_files s (c_out c)) s q H) as F.
-    destruct (finalize_generation (c_out c) (child_files s (c_out c)) s). exact F. }
-  destruct (negb (c_lib_ok c)); cbn [negb fst]; [exact H|].
-  pose proof (generate_core_Eff c a s) as (G & _). destruct (generate_core c a s) as [s1 ok]. cbn [fst] in G.
-  assert (file_at s1 q = None) as H1 by (rewrite (G _ NA); exact H).
-  destruct ok; cbn [negb fst]; [|exact H1].
-  pose proof (finalize_none (c_out c) (written_names a) s1 q H1) as F.
-  destruct (finalize_generation (c_out c) (written_names a) s1). exact F.
-Qed.
-
 (* ------------------------------------------------------------------ one run *)
-(* everything a run may touch, both classes included *)
-Definition touch (r : run) (q : path) : Prop :=
-  may_change r q \/ init_target r = Some q
-  \/ (is_build r = true /\ q = out_of r ++ [n_probe])
-  \/ (is_build r = true /\ exists n, q = out_of r ++ [n] /\ is_source (proj_of r) q = true /\ gen_affix n = true).
+(* a name ending in .ts does not end in .rs: cleanup never selects a project source *)
+Lemma ts_not_rs n : ends_ts n = true -> ends_rs n = false.
+Proof.
+  unfold ends_ts, ends_rs. generalize (rev n) as l. intros l.
+  change (rev (L ".ts")) with [("s")%char; ("t")%char; (".")%char].
+  change (rev (L ".rs")) with [("s")%char; ("r")%char; (".")%char].
+  destruct l as [|a [|b l]]; cbn [starts]; intros H.
+  - discriminate.
+  - rewrite andb_false_r in H. discriminate.
+  - apply andb_prop in H. destruct H as [_ H]. apply andb_prop in H. destruct H as [H _].
+    apply Ascii.eqb_eq in H. subst b. apply andb_false_iff. right. reflexivity.
+Qed.
+
+(* everything a run may touch *)
+Definition touch (r : run) (q : path) : Prop := may_change r q \/ init_target r = Some q.
 
 Lemma own_may_change r q : A_own (out_of r) q -> may_change r q.
 Proof.
@@ -503,23 +485,15 @@ Proof.
   - apply not_rs_not_source, listed_not_rs. right. apply in_or_app. left. exact H.
 Qed.
 
-Lemma cln_reserved out q : A_cln out q -> reserved out q.
+Lemma cln_may_change r q : A_cln (out_of r) q -> may_change r q.
 Proof.
-  intros (n & -> & H). exists n. split; [reflexivity|]. apply reserved_name_b_iff.
-  unfold reserved_name_b. destruct H as [H|H].
-  - apply in_b_In in H. pose proof patterns_reserved as P. rewrite forallb_forall in P. rewrite (P _ H). reflexivity.
-  - unfold gen_affix in H. rewrite <- orb_assoc, H. apply orb_true_r.
-Qed.
-
-Lemma cln_touch r q : is_build r = true -> A_cln (out_of r) q -> touch r q.
-Proof.
-  intros Bd H. pose proof (cln_reserved _ _ H) as R. destruct H as (n & -> & H).
-  destruct (is_source (proj_of r) (out_of r ++ [n])) eqn:S.
-  - right. right. right. split; [exact Bd|]. exists n. split; [reflexivity|]. split; [exact S|].
-    destruct H as [H|H]; [|exact H]. apply is_source_child in S.
-    apply in_b_In in H. rewrite (listed_not_rs n) in S; [discriminate|].
-    right. apply in_or_app. right. exact H.
-  - left. split; assumption.
+  intros (n & -> & H). split.
+  - exists n. split; [reflexivity|]. apply reserved_name_b_iff. unfold reserved_name_b. destruct H as [H|[H _]].
+    + apply in_b_In in H. pose proof patterns_reserved as P. rewrite forallb_forall in P. rewrite (P _ H). reflexivity.
+    + unfold affix in H. rewrite <- orb_assoc, H. apply orb_true_r.
+  - apply not_rs_not_source. destruct H as [H|[_ H]].
+    + apply listed_not_rs. right. apply in_or_app. right. apply in_b_In, H.
+    + apply ts_not_rs, H.
 Qed.
 
 Lemma exec_Eff r s : Eff (touch r) (B_out (out_of r)) s (fst (exec r s)).
@@ -528,91 +502,26 @@ Proof.
   - eapply Eff_weaken; [| |apply run_generate_Eff]; [|auto].
     intros q H. left. apply own_may_change, H.
   - eapply Eff_weaken; [| |apply run_init_Eff]; [|auto].
-    intros q [H|H]; [left; apply own_may_change, H|right; left; unfold init_target; rewrite E; congruence].
-  - assert (is_build r = true) as Bd by (unfold is_build; rewrite E; reflexivity).
-    eapply Eff_weaken; [| |apply run_build_Eff]; [|auto].
-    intros q [H|[H|H]].
-    + left. apply own_may_change, H.
-    + right. right. left. split; [exact Bd|]. symmetry. exact H.
-    + apply cln_touch; assumption.
-Qed.
-
-Lemma exec_frame_all r s q : ~ touch r q -> file_at (fst (exec r s)) q = file_at s q.
-Proof. intros H. destruct (exec_Eff r s) as (F & _). apply F, H. Qed.
-
-Lemma lookup_In s q x : lookup s q = Some x -> In (q, x) s.
-Proof.
-  induction s as [|[p n] s IH]; cbn [lookup]; [discriminate|].
-  destruct (path_eqb p q) eqn:E.
-  - apply path_eqb_eq in E. subst p. intros H. injection H as ->. left. reflexivity.
-  - intros H. right. apply IH, H.
-Qed.
-
-Lemma is_file_child s out n : is_file s (out ++ [n]) = true -> In n (child_files s out).
-Proof.
-  intros F. unfold child_files. apply in_flat_map.
-  unfold is_file in F. destruct (lookup s (out ++ [n])) as [[c|]|] eqn:Lk; try discriminate.
-  exists (out ++ [n], File c). split; [apply lookup_In, Lk|]. cbn [fst].
-  assert (strip_prefix out (out ++ [n]) = Some [n]) as S by (apply strip_prefix_spec; reflexivity).
-  rewrite S. unfold is_file. rewrite Lk. left. reflexivity.
+    intros q [H|H]; [left; apply own_may_change, H|right; unfold init_target; rewrite E; congruence].
+  - eapply Eff_weaken; [| |apply run_build_Eff]; [|auto].
+    intros q [H|H]; left; [apply own_may_change, H|apply cln_may_change, H].
 Qed.
 
 Lemma exec_frame r s q :
-  kf_C16 r s = false ->
-  ~ may_change r q -> init_target r <> Some q ->
-  file_at (fst (exec r s)) q = file_at s q.
-Proof.
-  intros K R I. apply orb_false_iff in K. destruct K as [K1 K2].
-  destruct (is_build r) eqn:Bd.
-  2:{ apply exec_frame_all. unfold touch. rewrite Bd.
-      intros [H|[H|[[H _]|[H _]]]]; [contradiction|contradiction|discriminate|discriminate]. }
-  unfold kf_C16_write_test in K1. unfold kf_C16_source_cleanup in K2. rewrite Bd in K1, K2. cbn [andb] in K1, K2.
-  destruct (file_at s q) as [c|] eqn:Fq.
-  - (* a regular file is there: it is neither the probe nor a source the cleanup takes *)
-    rewrite <- Fq. apply exec_frame_all. unfold touch. intros [H|[H|[[_ H]|[_ (n & -> & S & G)]]]]; try contradiction.
-    + subst q. apply is_file_file_at in K1. congruence.
-    + assert (is_file s (out_of r ++ [n]) = true) as F by (unfold is_file, file_at in *; destruct (lookup s (out_of r ++ [n])) as [[x|]|]; congruence).
-      apply is_file_child in F.
-      assert (existsb (fun n0 => is_source (proj_of r) (out_of r ++ [n0]) && gen_affix n0) (child_files s (out_of r)) = true) as C.
-      { apply existsb_exists. exists n. split; [exact F|]. rewrite S, G. reflexivity. }
-      congruence.
-  - (* nothing is there: nothing appears *)
-    unfold exec. destruct r as [e c a]. unfold is_build in Bd. cbn [r_entry r_cfg r_ana] in *.
-    destruct e as [|i|d]; try discriminate. apply run_build_none; [|exact Fq].
-    intro H. apply R. apply (own_may_change {| r_entry := Build d; r_cfg := c; r_ana := a |}), H.
-Qed.
+  ~ may_change r q -> init_target r <> Some q -> file_at (fst (exec r s)) q = file_at s q.
+Proof. intros R I. destruct (exec_Eff r s) as (F & _). apply F. intros [H|H]; contradiction. Qed.
 
 (* ------------------------------------------------------------------ histories *)
 Lemma fs_after_cons r runs s : fs_after (r :: runs) s = fs_after runs (fst (exec r s)).
 Proof. reflexivity. Qed.
 
 Theorem frame_history : forall runs s q,
-  kf_C16_history runs s = false ->
   (forall r, In r runs -> ~ may_change r q /\ init_target r <> Some q) ->
   file_at (fs_after runs s) q = file_at s q.
 Proof.
-  induction runs as [|r runs IH]; intros s q K H; [reflexivity|].
-  rewrite fs_after_cons. cbn [kf_C16_history] in K. apply orb_false_iff in K. destruct K as [K1 K2].
-  rewrite IH; [|exact K2|intros r' Hr'; apply H; right; exact Hr'].
-  destruct (H r (or_introl eq_refl)) as [R I]. apply exec_frame; assumption.
-Qed.
-
-(* without the class premise: the probe path and generated-looking sources of a build run are the only further paths *)
-Theorem frame_history_all : forall runs s q,
-  (forall r, In r runs -> ~ touch r q) -> file_at (fs_after runs s) q = file_at s q.
-Proof.
   induction runs as [|r runs IH]; intros s q H; [reflexivity|].
   rewrite fs_after_cons, IH; [|intros r' Hr'; apply H; right; exact Hr'].
-  apply exec_frame_all, H. left. reflexivity.
-Qed.
-
-(* the CLI paths are in neither class: generate and init never touch a project source or a foreign file *)
-Theorem frame_cli : forall r s q,
-  is_build r = false -> ~ may_change r q -> init_target r <> Some q ->
-  file_at (fst (exec r s)) q = file_at s q.
-Proof.
-  intros r s q Bd R I. apply exec_frame; try assumption.
-  unfold kf_C16, kf_C16_write_test, kf_C16_source_cleanup. rewrite Bd. reflexivity.
+  destruct (H r (or_introl eq_refl)) as [R I]. apply exec_frame; assumption.
 Qed.
 
 Theorem dirs_history : forall runs s q,
@@ -638,7 +547,14 @@ Proof.
   apply R. apply (own_may_change {| r_entry := Generate; r_cfg := c; r_ana := a |}), H.
 Qed.
 
-(* ------------------------------------------------------------------ the recorded defects, inside Coq *)
+(* the probe path in particular: whatever sits there stays *)
+Lemma probe_untouched r s : init_target r <> Some (out_of r ++ [n_probe]) ->
+  file_at (fst (exec r s)) (out_of r ++ [n_probe]) = file_at s (out_of r ++ [n_probe]).
+Proof.
+  intros I. apply exec_frame; [|exact I]. intros [R _]. exact (probe_path_not_reserved _ R).
+Qed.
+
+(* ------------------------------------------------------------------ the witnesses of the two repaired defects *)
 Definition wit_cfg : cfg := {| c_out := [L "gen"]; c_proj := [L "src-tauri"]; c_lib_ok := true; c_force := false; c_viz := false |}.
 Definition wit_ana : ana := {| a_ok := true; a_cmds := true; k_types := L "T"; k_commands := L "C"; k_events := None;
                                k_index := L "I"; k_txt := L "x"; k_dot := L "d"; k_cache := L "H" |}.
@@ -647,54 +563,28 @@ Definition wit_fs : fs :=
   [([L "src-tauri"], Dir); ([L "gen"], Dir); ([L "gen"; L ".write_test"], File (L "my notes"));
    ([L "gen"; L "notes.ts"], File (L "user")); ([L "gen"; L "models.ts"], File (L "old"))].
 
-Lemma write_test_refuted :
-  exists r s q c, is_build r = true /\ ~ may_change r q /\ init_target r <> Some q /\
-                  file_at s q = Some c /\ file_at (fst (exec r s)) q = None.
-Proof.
-  exists wit_run, wit_fs, [L "gen"; L ".write_test"], (L "my notes").
-  split; [reflexivity|]. split.
-  - intros [H _]. apply reserved_b_iff in H. vm_compute in H. discriminate.
-  - split; [discriminate|]. split; vm_compute; reflexivity.
-Qed.
+(* formerly C16-1: the foreign .write_test survives a build run that really generates and cleans *)
+Lemma write_test_kept :
+  file_at (fst (exec wit_run wit_fs)) [L "gen"; L ".write_test"] = Some (L "my notes") /\
+  file_at (fst (exec wit_run wit_fs)) [L "gen"; L "types.ts"] = Some (L "T") /\
+  file_at (fst (exec wit_run wit_fs)) [L "gen"; L "models.ts"] = None /\
+  snd (exec wit_run wit_fs) = BuildOk.
+Proof. vm_compute. repeat split; reflexivity. Qed.
 
-Lemma wit_in_class : kf_C16_write_test wit_run wit_fs = true /\ kf_C16_source_cleanup wit_run wit_fs = false.
-Proof. vm_compute. split; reflexivity. Qed.
-
-(* output directory = source directory, holding generated_cmds.rs *)
 Definition wit2_cfg : cfg := {| c_out := [L "src-tauri"; L "src"]; c_proj := [L "src-tauri"]; c_lib_ok := true; c_force := false; c_viz := false |}.
 Definition wit2_run : run := {| r_entry := Build true; r_cfg := wit2_cfg; r_ana := wit_ana |}.
 Definition wit2_fs : fs :=
   [([L "src-tauri"], Dir); ([L "src-tauri"; L "src"], Dir);
    ([L "src-tauri"; L "src"; L "main.rs"], File (L "mod generated_cmds;"));
-   ([L "src-tauri"; L "src"; L "generated_cmds.rs"], File (L "#[tauri::command] fn ping() {}"))].
+   ([L "src-tauri"; L "src"; L "generated_cmds.rs"], File (L "#[tauri::command] fn ping() {}"));
+   ([L "src-tauri"; L "src"; L "old_generated.ts"], File (L "stale"))].
 
-Lemma source_cleanup_refuted :
-  exists r s q c, is_build r = true /\ is_source (proj_of r) q = true /\ init_target r <> Some q /\
-                  file_at s q = Some c /\ file_at (fst (exec r s)) q = None.
-Proof.
-  exists wit2_run, wit2_fs, [L "src-tauri"; L "src"; L "generated_cmds.rs"], (L "#[tauri::command] fn ping() {}").
-  split; [reflexivity|]. split; [vm_compute; reflexivity|]. split; [discriminate|]. split; vm_compute; reflexivity.
-Qed.
-
-Lemma wit2_in_class : kf_C16_write_test wit2_run wit2_fs = false /\ kf_C16_source_cleanup wit2_run wit2_fs = true.
-Proof. vm_compute. split; reflexivity. Qed.
-
-(* the statement without the class premise is false of the faithful model *)
-Definition frame_unconditional_statement : Prop :=
-  forall runs s q,
-    (forall r, In r runs -> ~ may_change r q /\ init_target r <> Some q) ->
-    file_at (fs_after runs s) q = file_at s q.
-
-Lemma frame_unconditional_refuted : ~ frame_unconditional_statement.
-Proof.
-  intros H. specialize (H [wit_run] wit_fs [L "gen"; L ".write_test"]).
-  assert (file_at (fs_after [wit_run] wit_fs) [L "gen"; L ".write_test"] = None) as E1 by (vm_compute; reflexivity).
-  assert (file_at wit_fs [L "gen"; L ".write_test"] = Some (L "my notes")) as E2 by (vm_compute; reflexivity).
-  rewrite E1, E2 in H. enough (None = Some (L "my notes")) by discriminate. apply H.
-  intros r [<-|[]]. split.
-  - intros [R _]. apply reserved_b_iff in R. vm_compute in R. discriminate.
-  - discriminate.
-Qed.
+(* formerly C16-2: generated_cmds.rs survives; a stale generated-looking .ts file is still cleaned *)
+Lemma sources_kept :
+  file_at (fst (exec wit2_run wit2_fs)) [L "src-tauri"; L "src"; L "generated_cmds.rs"] = Some (L "#[tauri::command] fn ping() {}") /\
+  file_at (fst (exec wit2_run wit2_fs)) [L "src-tauri"; L "src"; L "old_generated.ts"] = None /\
+  snd (exec wit2_run wit2_fs) = BuildOk.
+Proof. vm_compute. repeat split; reflexivity. Qed.
 
 Lemma not_may_change_by_b r q : reserved_b (out_of r) q && negb (is_source (proj_of r) q) = false -> ~ may_change r q.
 Proof.
@@ -704,3 +594,12 @@ Qed.
 Lemma cleanup_selects_reserved m n :
   is_generated_file m n = true -> in_b n m = false -> reserved_name n.
 Proof. intros H1 H2. apply reserved_name_b_iff. eapply is_generated_reserved; eauto. Qed.
+
+(* ... and, after the repair, never a project source *)
+Lemma cleanup_spares_sources m n proj out :
+  is_generated_file m n = true -> in_b n m = false -> is_source proj (out ++ [n]) = false.
+Proof.
+  intros H1 H2. apply not_rs_not_source. destruct (is_generated_cases _ _ H1 H2) as [H|[_ H]].
+  - apply listed_not_rs. right. apply in_or_app. right. apply in_b_In, H.
+  - apply ts_not_rs, H.
+Qed.
